@@ -158,6 +158,8 @@ theorem dataItem_facts (fl id j : Nat) (d : Bytes) (hfl : fl < 32) : DataItemFac
 
 theorem fRun_cons (P : Params) (F : FSt) (x : Blk) (xs : List Blk) : fRun P F (x :: xs) = fRun P (fStep P F x) xs := rfl
 
+theorem fRun_nil (P : Params) (F : FSt) : fRun P F [] = F := rfl
+
 theorem fRun_append (P : Params) (F : FSt) (a b : List Blk) : fRun P F (a ++ b) = fRun P (fRun P F a) b := by
   simp [fRun, List.foldl_append]
 
